@@ -78,10 +78,10 @@ def run(ctx):
     bins = tc.both_profiles(ctx)
     env = {"VERIF_TIER": ctx.tier}
     # texture lists (3DS containers, TPL) x placements (CTPK + BCH + CGFX, TPL)
-    # (thorough: the lists with a 64 KiB payload - 3 for the 3DS containers, 1 for TPL - get every 8th placement)
+    # (the lists with a 64 KiB payload - quick 1 + 1, thorough 3 + 1 - get the first and every 8th placement)
     l3, lt = ctx.pick((12, 10), (24, 17))
     p3, pt = ctx.pick((9, 3), (104, 18))
-    n_cases = ctx.pick(l3 * p3 + lt * pt, (l3 - 3) * p3 + 3 * 14 + (lt - 1) * pt + 3)
+    n_cases = ctx.pick((l3 - 1) * p3 + 3 + (lt - 1) * pt + 1, (l3 - 3) * p3 + 3 * 14 + (lt - 1) * pt + 3)
     # 1. laws on the model
     r = ctx.tlc("MC_TexContainers", "MC_TexContainers.cfg", env=env, workers=tc.TLC_WORKERS)
     if r.distinct < n_cases + 1:
@@ -92,6 +92,15 @@ def run(ctx):
     if len(cases) != n_cases:
         raise vlib.ToolError("generator produced %d cases, expected %d" % (len(cases), n_cases))
     cases.sort(key=lambda c: (c["id"][0], c["id"][1], c["id"][2]))
+    # vacuity guards on the generated model (a failure is a defect of the model, not of mila)
+    for cont in ("ctpk", "bch", "cgfx", "tpl"):
+        mine = [c for c in cases if c["c"] == cont]
+        if not any(c["shrink_eof"] for c in mine):
+            raise vlib.ToolError("%s: no file in which a smaller payload than its predecessor's ends the file" % cont)
+        if max(c["max_texels"] for c in mine) < 65536:
+            raise vlib.ToolError("%s: no texture with width x height >= 65536" % cont)
+    ctx.extra["files_with_shrinking_payload_at_end_of_file"] = sum(1 for c in cases if c["shrink_eof"])
+    ctx.extra["files_with_a_texture_of_65536_texels_or_more"] = sum(1 for c in cases if c["max_texels"] >= 65536)
     cpath = ctx.path("cases.ndjson")
     vlib.write_ndjson(cpath, cases)
     reads = 0
